@@ -794,12 +794,16 @@ def extend(rep, prop, tier, seed, module):
         c = dict(c)
         c['bound'] = 2 if tier == 'thorough' else 1
         c['dev'] = 1 if tier == 'thorough' else 0
+        if c.get('clients', 1) > 1 or c.get('n', 0) >= 3:
+            # 14 threads: two deviations are out of reach (~10^5 schedules of ~0.15 s); one deviation everywhere, and one on top
+            # of each starvation schedule in the thorough tier
+            c['bound'] = 1
         chess = c['stack'] == 'find' and not c.get('count_all')
         if not chess:
             # free switches (choices when the running thread blocks) explode with three associations or long two-way traffic:
             # there every deviation from the default order counts
             c['count_all'] = True
-            c['bound'] = 2 if tier == 'thorough' else 1
+            c['bound'] = 2 if (tier == 'thorough' and c.get('clients', 1) == 1 and c.get('n', 0) < 3) else 1
         # one task per schedule family (family 0 = preemption-bounded, i = starve the i-th thread of the default run)
         # and the preemption-bounded family is split into PARTS slices of the sub-trees hanging off the default execution
         for part in range(PARTS):
